@@ -436,9 +436,6 @@ func runC16(c *Ctx, r *Report) {
 		r.floor("parseSingleActionList uses in Loop (transform)", nParseInLoop, 1)
 	}
 	// ---------------- R6 ----------------
-	r.rule("C16-R6", "E (regexp/syntax language of a constant pattern) ", "P1",
-		"the request-line pattern getRegex admits no sign character in the GET parameter group (so limit/offset parse as non-negative integers), or dumpStatus checks the sign itself",
-		"GET /?offset=-1 indexes a slice with a negative number: fzf panics on the server goroutine (remote crash)")
 	c16r6(c, r)
 
 	c16round2(c, r)
@@ -497,6 +494,9 @@ func containsCallTo(fn, target *ssa.Function) bool {
 
 func c16r6(c *Ctx, r *Report) {
 	l := c.L
+	r.rule("C16-R6", "E (regexp/syntax language of a constant pattern) ", "P1",
+		"the request-line pattern getRegex admits no sign character in the GET parameter group (so limit/offset parse as non-negative integers), or dumpStatus checks the sign itself",
+		"GET /?offset=-1 indexes a slice with a negative number: fzf panics on the server goroutine (remote crash)")
 	g := l.Global("fzf", "getRegex")
 	if g == nil {
 		r.unest("anchors", token.NoPos, nil, "anchor getRegex", "cannot resolve")
